@@ -67,7 +67,10 @@ def gen_plan(seed, tier):
          "ports0": sorted(r.sample([1, 2, 3, 4], r.randint(0, 4))),
          # some component listens to the raw per-part event on the nexus and
          # halts it (for all parts / for a seeded half of them)
-         "halt_raw": r.pick(["", "", "", "all", "some"])}
+         "halt_raw": r.pick(["", "", "", "all", "some"]),
+         # a second switch is connected at the same time, with port numbers
+         # in common, and gets port-status messages of its own
+         "neighbour": r.chance(0.5)}
   steps = []
   n = r.randint(4, 30 if tier == "thorough" else 18)
   tag = [1000]
@@ -80,7 +83,8 @@ def gen_plan(seed, tier):
       steps.append({"op": "ps", "reason": r.wpick([(3, 0), (4, 2), (3, 1)]),
                     "port": r.randint(1, 4), "name_v": r.pick([0, 0, 1]),
                     "hw_v": r.pick([0, 0, 1]),
-                    "config": r.pick([0, 1, 0x40])})
+                    "config": r.pick([0, 1, 0x40]),
+                    "who": 1 if (cfg["neighbour"] and r.chance(0.4)) else 0})
     elif k == "stats":
       if reqs and r.chance(0.7):
         q = reqs[-1] if r.chance(0.7) else r.pick(reqs)   # continue one
@@ -209,6 +213,18 @@ def _drive(sim, plan, known, hit):
   model = {p["port_no"]: dict(p) for p in ports0}
   orig = {p["port_no"]: dict(p) for p in ports0}
   ever_deleted = set()
+  con2 = peer2 = None
+  model2 = orig2 = None
+  if cfg.get("neighbour"):
+    peer2 = world.new_peer()
+    sim.settle()
+    ports2 = [_port(no, 1, 1) for no in (1, 2, 3)]
+    if not handshake_script(peer2, 0x9a, ports2):
+      raise S.SimAbort("harness", "neighbour handshake did not complete")
+    con2 = peer2.con
+    model2 = {p["port_no"]: dict(p) for p in ports2}
+    orig2 = {p["port_no"]: dict(p) for p in ports2}
+    sim.probes["neighbour_switch"] += 1
   parts = {}          # xid -> list of (tags) for the open reply
   order = []          # xids with open partial replies, in first-part order
   expected_events = []  # (name, xid, tags)
@@ -227,6 +243,12 @@ def _drive(sim, plan, known, hit):
     _cmp_collection(pc, model, ctx, EthAddr, known, hit, sim)
     _cmp_collection(con.original_ports, orig, ctx + " (original_ports)",
                     EthAddr, known, hit, sim, original=True)
+    if con2 is not None:
+      _cmp_collection(con2.ports, model2, ctx + " (neighbour switch)",
+                      EthAddr, known, hit, sim)
+      _cmp_collection(con2.original_ports, orig2,
+                      ctx + " (neighbour switch, original_ports)",
+                      EthAddr, known, hit, sim, original=True)
 
   def check_stats(ctx):
     got = []
@@ -282,7 +304,17 @@ def _drive(sim, plan, known, hit):
     op = st["op"]
     if lost:
       break
-    if op == "ps":
+    if op == "ps" and st.get("who") and peer2 is not None:
+      # the neighbour's own port-status: only its view may change
+      no = st["port"]
+      pd = _port(no, st["name_v"], st["hw_v"], st["config"])
+      peer2.send(W.enc_port_status(nx(), st["reason"], pd))
+      sim.probes["ps_on_neighbour"] += 1
+      if st["reason"] == W.PR_DELETE:
+        model2.pop(no, None)
+      else:
+        model2[no] = dict(pd)
+    elif op == "ps":
       no = st["port"]
       pd = _port(no, st["name_v"], st["hw_v"], st["config"])
       reason = st["reason"]
